@@ -160,6 +160,19 @@ if prop == 'C11':
             try: got = ' '.join(set_value(parse(src_ + '\n'), pth, new_).split())
             except Exception as ex: got = 'EXC:' + type(ex).__name__
             if got != want: viol.append({'doc': src_, 'path': pth.split('.'), 'what': 'set through an inherit inside a call argument rewrote the wrong binding', 'got': got, 'expected': want})
+# ---- thirteenth round: the reference sits in an explicit NESTED set reached by a path of several segments — it is resolved in the scope of that
+# nested set (its own rec bindings shadow an outer let of the same name; a chain inside it is followed to its end)
+if prop == 'C11':
+    for tpl, pth in [('let v = "1"; in { a = rec { x = v; v = V; }; }', 'a.x'), ('{ a = rec { x = v; v = w; w = V; }; }', 'a.x'), ('let v = "0"; in { a = { b = rec { x = v; v = V; }; }; }', 'a.b.x'),
+                     ('let v = V; in { a = { x = v; }; }', 'a.x'), ('let v = "1"; in { a = rec { x = v; v = V; c.d = 1; }; }', 'a.x'), ('let v = V; in { a = { b = { x = v; }; k = 1; }; }', 'a.b.x'),
+                     ('{ pkgs }: let v = "1"; in mk { a = rec { x = v; v = V; }; }', 'a.x'), ('let w = V; in { a = rec { x = v; v = w; }; }', 'a.x')]:
+        for old_, new_ in [('"2"', '"NEW"'), ('7', '8')]:
+            src_ = tpl.replace('V', old_); want = tpl.replace('V', new_); count('reference-in-nested-set')
+            try: got = ' '.join(set_value(parse(src_ + '\n'), pth, new_).split())
+            except Exception as ex: got = 'EXC:' + type(ex).__name__
+            if got != want and tpl.startswith('let w = V; in { a = rec { x = v; v = w;') and got == src_.replace('v = w;', 'v = %s;' % new_):
+                count('listed/F-63'); continue        # listed: a chain that leaves the nested rec set for the enclosing let is cut at its middle link (exactly this outcome; any other is reported)
+            if got != want: viol.append({'doc': src_, 'path': pth.split('.'), 'what': 'set through a reference inside an explicit nested set rewrote the wrong binding', 'got': got, 'expected': want})
 # ---- sequences of edits through references on ONE document object (third round of seeds): every step must have the effect
 # it has on a fresh parse of the text the previous step printed — the defining binding is looked up anew each time
 if prop == 'C11':
